@@ -209,6 +209,27 @@ TUciRep ==
              ELSE TRUE
   /\ UNCHANGED <<gvars, rootBad>>
 
+\* the driver's perft command: leaf counts at depth 1 and 2 are the specification's
+RECURSIVE PerftS(_, _)
+PerftS(p, d) == IF d = 0 THEN 1 ELSE LET lg == Legal(p) IN
+                   IF d = 1 THEN Cardinality(lg)
+                   ELSE LET RECURSIVE Sum(_)
+                            Sum(S) == IF S = {} THEN 0 ELSE LET m == CHOOSE x \in S : TRUE IN PerftS(Make(p, m), d - 1) + Sum(S \ {m})
+                        IN Sum(lg)
+TUciPerft ==
+  /\ IsEvent("uciPerft")
+  /\ LET ev == Trace[l] root == PosOfJson(ev.root) IN
+       /\ Expect(FenOf(root) = ev.fen /\ Valid(root), ev, "INFRA/fen-projection", "", [fen |-> ev.fen])
+       /\ Expect(ev.p1 = PerftS(root, 1), ev, "C01/uci-perft-1", "", [fen |-> ev.fen, got |-> ev.p1, want |-> PerftS(root, 1)])
+       /\ Expect(ev.p2 = PerftS(root, 2), ev, "C01/uci-perft-2", "", [fen |-> ev.fen, got |-> ev.p2, want |-> PerftS(root, 2)])
+  /\ UNCHANGED <<gvars, rootBad>>
+
+\* the search has returned: every make of the search must have been undone (only the game prefix is left)
+TBalanced ==
+  /\ IsEvent("balanced")
+  /\ Expect(Len(stack) = Trace[l].base, Trace[l], "C03/make-without-undo-when-the-search-returned", "", [left |-> Len(stack) - Trace[l].base, depth |-> Trace[l].depth, hard |-> Trace[l].hard])
+  /\ UNCHANGED <<gvars, rootBad>>
+
 \* the engine panicked during a valid call sequence (recorded by the recorder's recover handler)
 TPanic ==
   /\ IsEvent("panic")
@@ -216,7 +237,7 @@ TPanic ==
   /\ UNCHANGED <<gvars, rootBad>>
 
 TInit == GInit /\ l = 1 /\ rootBad = FALSE
-TNext == TLoad \/ TMake \/ TNullMake \/ TUndo("undo") \/ TUndo("nullundo") \/ TTransp \/ TUciPosition \/ TUciRep \/ TPanic
+TNext == TLoad \/ TMake \/ TNullMake \/ TUndo("undo") \/ TUndo("nullundo") \/ TTransp \/ TUciPosition \/ TUciRep \/ TPanic \/ TBalanced \/ TUciPerft
 
 \* printed once at the end: how far the trace was consumed
 Done == PrintT("DONE " \o ToString(TLCGet("stats").diameter - 1) \o " " \o ToString(Len(Trace)))
